@@ -163,9 +163,7 @@ def run(ctx):
             ctx.case((repr(cfg), repr(common.strip_tree(d, names=False))), nontrivial=False)
             ctx.count(r["err"][0])
             continue
-        U = I.utils
-        actual_pref = {k.rsplit(".", 1)[0] for k in U.flatten_nested_fields_specs(
-            U.normalize_nested_fields_specs(cfg.get("nested_fields")))}
+        actual_pref = set(es.leaf_parent_prefixes(cfg.get("nested_fields")))
         exp = sorted(map(repr, expected_leaves(d, cfg, actual_pref)))
         act_list = actual_leaves(raw, [])
         act = sorted(map(repr, act_list))
